@@ -550,7 +550,9 @@ func (t *Tree) allTipNamesRecur(names *[]string, n *Node, parent *Node) {
 	// is a tip
 	if len(n.neigh) == 1 {
 		*names = append(*names, n.name)
-	} else {
+	}
+	// a root with a single neighbour is a tip whose subtree still has to be visited
+	if len(n.neigh) != 1 || parent == nil {
 		for _, child := range n.neigh {
 			if child != parent {
 				t.allTipNamesRecur(names, child, n)
